@@ -154,8 +154,8 @@ def main():
     for oid in sorted(obligations):
         o = obligations[oid]
         v = o['verdict']
-        if v == 'unsat':
-            continue
+        if v in ('unsat', 'pending'):
+            continue      # 'pending' only occurs when the worker crashed (reported as CHECKER-ERROR, exit 3)
         if v == 'known':
             known_lines.append('KNOWN-FINDING: property=%s %s: %s [%s proved outside the recorded class; witness replayed]'
                                % (prop, o.get('finding_id'), o.get('finding_what', ''), oid))
